@@ -245,6 +245,10 @@ func main() {
 		dumpVocab(prog)
 		return
 	}
+	if *dump == "@writers" {
+		dumpWriters(prog)
+		return
+	}
 	if *dump == "@fields" {
 		dumpFields(prog)
 		return
